@@ -5,7 +5,7 @@ ENGINES = [
     {"name": "explorer", "path": "harness/explorer.py", "kind_free_text": "stateless DFS explicit-state model checker over the real engine on a simulated broker (replay + fingerprint dedup + deviation bound)",
      "serves_properties": ["C03", "C08"]},
     {"name": "enumerator", "path": "checks/common.py", "kind_free_text": "exhaustive small-scope enumeration of inputs/programs from a stated finite alphabet, each evaluated on the real code and on a reference model under /verif/ref",
-     "serves_properties": ["C08", "C12"]},
+     "serves_properties": ["C01", "C08", "C12", "C14"]},
 ]
 CHECKS = {
     "C03": {
@@ -34,6 +34,22 @@ CHECKS["C08"] = {
             "with an exact rational reference. (Firing-instant clauses: explored on the virtual clock, see evidence.)",
     "note": ENUM + " " + SIM,
     "technique": "exhaustive enumeration of the timestamp grammar against an exact reference; explicit-state exploration of timer/reply orders on a virtual clock",
+}
+CHECKS["C14"] = {
+    "engine": "enumerator",
+    "text": "Exhaustive enumeration through one-Choice machines run by the real engine on the simulated broker: all 39 comparison operators x variable values of every JSON type "
+            "(incl. missing) x constants of every type and *Path operands, And/Or/Not trees to the tier's depth x all truth assignments, all orderings of overlapping rules, "
+            "Default present/absent, InputPath/OutputPath; oracle ref/choice.py. Cases the statement leaves open are not judged.",
+    "note": ENUM + " " + SIM,
+    "technique": "exhaustive small-scope enumeration of programs x inputs against a reference model (bounded model checking, explicit enumeration)",
+}
+CHECKS["C01"] = {
+    "engine": "enumerator",
+    "text": "All state machines generated from a grammar over ~40 state templates chained to the tier's length (2 quick / 3 thorough, with nested Parallel/Map templates) x a JSON "
+            "input alphabet x task outcome assignments, each run through the real engine on the canonical schedule and through an independent big-step interpreter (ref/asl.py); "
+            "terminal status, output / error name compared on the notification and the record. Exhaustive within the grammar bounds; known defects matched only via exact defect models.",
+    "note": ENUM + " " + SIM,
+    "technique": "exhaustive small-scope enumeration of programs x inputs x task outcomes against a reference interpreter (bounded model checking, explicit enumeration)",
 }
 NA = {}
 NOTES = "All checks run the real code of /repo's working tree (imported by path) over /verif/sim; see DESIGN.md."
